@@ -107,8 +107,12 @@ void c10_case(Tape& t, Ctx& ctx) {
       else if (have && t.chance(1, 8)) { c = cur; c.t0 = gen_start_time(t); }  // identical except the start time
       bool by_points = t.flag();
       std::vector<double> tp = c.time_points();
+      // 1/6 of the updates omit the boundary argument: it defaults to zero boundary derivatives, whatever the object held before
+      bool omit_bc = t.chance(1, 6);
+      if (omit_bc) c.bc = BoundaryConditions<D>();
       if (!have) { obj.reset(t.flag() ? new Spline() : (by_points ? new Spline(tp, c.P, c.bc) : new Spline(c.T, c.P, c.t0, c.bc))); }
-      if (by_points) obj->update(tp, c.P, c.bc); else obj->update(c.T, c.P, c.t0, c.bc);
+      if (omit_bc) { if (by_points) obj->update(tp, c.P); else obj->update(c.T, c.P, c.t0); }
+      else if (by_points) obj->update(tp, c.P, c.bc); else obj->update(c.T, c.P, c.t0, c.bc);
       fresh.reset(by_points ? new Spline(tp, c.P, c.bc) : new Spline(c.T, c.P, c.t0, c.bc));
       if (have && c.N < cur.N) shrunk = true;
       if (have && propagated_since_update) nt = true;  // a propagate between two updates
